@@ -121,7 +121,7 @@ K("bl.spec_clamp", ["C05"], "jxl-render", BL, BLM, "spec_clamp01_is_clamp", "com
 
 # ---- toc.rs: section order -----------------------------------------------------------------------------------------
 K("toc.section_order", ["C14", "C01"], "jxl-frame", TOC, TOCM, "section_order_contract",
-  "bounded:num_lf_groups <= 2, num_groups <= 3, num_passes <= 2 (table of at most 10 sections), every permutation of the table",
+  "bounded:4 table shapes (num_lf_groups, num_groups, num_passes) = (1,1,1) single section, (1,1,2), (1,2,1), (2,3,2); every permutation of each table, every section",
   ["Toc::group_index_bitstream_order", "Toc::is_single_entry", "TocGroupKind::cmp"],
   "requires the Toc invariant established by Toc::parse (table length 1 or 1+num_lf_groups+1+num_groups*num_passes, permutation empty or a "
   "permutation of the table) and a section the callers ask for (All iff single section; indices in range); ensures result == "
